@@ -1227,3 +1227,147 @@ Section Default.
     destruct (render_to str wr_str wd fuel tpl block c g []) as [s1 [out|b]| |]; auto.
   Qed.
 End Default.
+
+(* ---------- the concrete world of the correspondence satisfies the hypotheses ---------- *)
+
+Lemma map_get_ok ok m k x : map_get m k = Some x -> kw_ok ok m = true -> vok ok x = true.
+Proof.
+  induction m as [|[k' v] t IH]; cbn; [discriminate|]. intros E H. apply andb_prop in H. destruct H as [Hv Ht].
+  destruct (key_eq k' k); [inversion E; subst; exact Hv|apply IH; assumption].
+Qed.
+
+Lemma get_attr_ok ok v a x : get_attr v a = Some x -> vok ok v = true -> vok ok x = true.
+Proof. destruct v; cbn [get_attr]; try discriminate. intros E H. rewrite vok_map in H. eapply map_get_ok; eassumption. Qed.
+
+Lemma filter0_ok ok name v k sc r sf :
+  str_eqb name n_safe = false ->
+  filter0 name v k sc = Some (ROk r, sf) -> vok ok v = true -> kw_ok ok k = true ->
+  vok ok (if sf then mark_safe r else r) = true.
+Proof.
+  intros Hns E Hv Hk. unfold filter0 in E. rewrite Hns in E.
+  destruct (str_eqb name n_default).
+  - inversion E; subst; clear E. unfold kw_get in *.
+    destruct (map_get k (KStr n_value false)) as [d|] eqn:Ed; [|discriminate].
+    assert (Hd : vok ok d = true) by (eapply map_get_ok; eassumption).
+    destruct (map_get k (KStr n_boolean false)) as [[ | | [|] | | | | | | ]|]; try discriminate;
+      match goal with H : ROk _ = ROk _ |- _ => inversion H; subst; clear H end;
+      match goal with |- vok ok (if ?c then _ else _) = true => destruct c; assumption end.
+  - destruct (str_eqb name n_upper).
+    + inversion E; subst; clear E. destruct v; try discriminate.
+      match goal with H : ROk _ = ROk _ |- _ => inversion H; subst; reflexivity end.
+    + destruct (str_eqb name n_length); [|discriminate]. inversion E; subst; clear E.
+      destruct v; try discriminate; match goal with H : ROk _ = ROk _ |- _ => inversion H; subst; reflexivity end.
+Qed.
+
+Lemma filter1_ok ok name v k sc r sf :
+  filter1 false name v k sc = Some (ROk r, sf) -> vok ok v = true -> kw_ok ok k = true ->
+  vok ok (if sf then mark_safe r else r) = true.
+Proof.
+  unfold filter1. destruct (str_eqb name n_safe) eqn:Es; [discriminate|].
+  destruct (str_eqb name n_escape_html).
+  - intros E _ _. inversion E; subst; clear E. destruct v; try discriminate.
+    match goal with H : ROk _ = ROk _ |- _ => inversion H; subst; reflexivity end.
+  - intros E. eapply filter0_ok; eassumption.
+Qed.
+
+Definition def_ok (ok : N -> bool) (d : comp_def) : bool :=
+  forallb (fun p => match snd p with Some v => vok ok v | None => true end) (cd_params d).
+
+Lemma bind_params_ok ok : forall ps k acc c,
+  forallb (fun p : str * option str * option value => match snd p with Some v => vok ok v | None => true end) ps = true ->
+  kw_ok ok k = true -> ctx_ok ok acc = true -> bind_params ps k acc = ROk c -> ctx_ok ok c = true.
+Proof.
+  induction ps as [|[[name ty] dflt] t IH]; cbn; intros k acc c Hps Hk Hacc E.
+  - inversion E; subst. exact Hacc.
+  - apply andb_prop in Hps. destruct Hps as [Hd Ht].
+    destruct (map_get k (KStr name false)) as [v|] eqn:Eg.
+    + assert (Hv : vok ok v = true) by (eapply map_get_ok; eassumption).
+      destruct (match ty with Some ty0 => type_matches ty0 v | None => Some true end) as [[|]|]; try discriminate.
+      eapply IH; [exact Ht|exact Hk| |exact E]. cbn. rewrite Hv. exact Hacc.
+    + destruct dflt as [d|]; [|discriminate].
+      eapply IH; [exact Ht|exact Hk| |exact E]. cbn. cbn in Hd. rewrite Hd. exact Hacc.
+Qed.
+
+Lemma build_ctx1_ok ok d k b c :
+  def_ok ok d = true -> build_ctx1 d k b = ROk c -> kw_ok ok k = true -> obody_ok ok b = true -> ctx_ok ok c = true.
+Proof.
+  intros Hd E Hk Hb. unfold build_ctx1 in E.
+  set (unknown := filter _ _) in E.
+  assert (Hu : kw_ok ok (map (fun sv : str * value => (KStr (fst sv) true, snd sv)) unknown) = true).
+  { unfold Taint.kw_ok. apply forallb_forall. intros [k' x] Hin. apply in_map_iff in Hin.
+    destruct Hin as ([s v] & Heq & Hin). inversion Heq; subst. cbn.
+    subst unknown. apply filter_In in Hin. destruct Hin as [Hin _]. apply in_flat_map in Hin.
+    destruct Hin as ([k0 v0] & Hin0 & Hs). cbn in Hs. destruct (key_str k0); [|destruct Hs].
+    destruct Hs as [Hs|[]]. inversion Hs; subst. unfold Taint.kw_ok in Hk. rewrite forallb_forall in Hk.
+    apply (Hk _ Hin0). }
+  assert (Hmain : forall c1, bind_params (cd_params d) k [] = ROk c1 -> ctx_ok ok c1 = true).
+  { intros c1 E1. eapply bind_params_ok; [exact Hd|exact Hk| |exact E1]. reflexivity. }
+  assert (Hfin : res_bind (bind_params (cd_params d) k []) (fun c1 =>
+             let c2 := match cd_rest d with
+                       | Some rn => (rn, VMap (map (fun sv : str * value => (KStr (fst sv) true, snd sv)) unknown)) :: c1
+                       | None => c1 end in
+             ROk (match b with Some b0 => (n_body, b0) :: c2 | None => c2 end)) = ROk c -> ctx_ok ok c = true).
+  { destruct (bind_params (cd_params d) k []) as [c1|] eqn:E1; cbn [res_bind]; [|discriminate].
+    intros X. inversion X; subst; clear X. specialize (Hmain _ eq_refl).
+    assert (H2 : ctx_ok ok (match cd_rest d with
+                       | Some rn => (rn, VMap (map (fun sv : str * value => (KStr (fst sv) true, snd sv)) unknown)) :: c1
+                       | None => c1 end) = true).
+    { destruct (cd_rest d); [|exact Hmain]. cbn [Taint.ctx_ok forallb snd]. rewrite vok_map, Hu. exact Hmain. }
+    destruct b as [b0|]; [|exact H2]. cbn [Taint.ctx_ok forallb snd]. cbn in Hb. rewrite Hb. exact H2. }
+  clear Hu Hmain. clearbody unknown. revert Hfin E.
+  destruct (cd_rest d) as [rn|]; intros Hfin E; [exact (Hfin E)|].
+  destruct unknown; [exact (Hfin E)|discriminate].
+Qed.
+
+(* all hypotheses of the theorems above, for world1 without the safe filter *)
+Theorem world1_satisfies_hypotheses fp tpls comps :
+  (forall n d c, assoc_get comps n = Some (d, c) -> def_ok ok_html d = true) ->
+  let wd := world1 false fp tpls comps in
+  w_escape wd = escape_html /\ w_format wd = format_with fp /\
+  (forall n v k sc r sf, w_filter wd n v k sc = Some (ROk r, sf) ->
+      vok ok_html v = true -> kw_ok ok_html k = true -> scope_ok ok_html sc = true ->
+      vok ok_html (if sf then mark_safe r else r) = true) /\
+  (forall n k sc r sf, w_function wd n k sc = Some (ROk r, sf) ->
+      kw_ok ok_html k = true -> scope_ok ok_html sc = true -> vok ok_html (if sf then mark_safe r else r) = true) /\
+  (forall i a b c, w_math wd i a b = ROk c -> vok ok_html a = true -> vok ok_html b = true -> vok ok_html c = true) /\
+  (forall a c, w_negate wd a = ROk c -> vok ok_html a = true -> vok ok_html c = true) /\
+  (forall m k x, w_map_get wd m k = Some x -> kw_ok ok_html m = true -> vok ok_html x = true) /\
+  (forall v a x, w_get_attr wd v a = Some x -> vok ok_html v = true -> vok ok_html x = true) /\
+  (forall n d ch, assoc_get (w_components wd) n = Some (d, ch) ->
+      forall k b c, w_build_ctx wd d k b = ROk c -> kw_ok ok_html k = true ->
+      obody_ok ok_html b = true -> ctx_ok ok_html c = true).
+Proof.
+  intros Hdefs wd. cbn.
+  split; [reflexivity|]. split; [reflexivity|].
+  split; [intros; eapply filter1_ok; eassumption|].
+  split; [discriminate|]. split; [discriminate|]. split; [discriminate|].
+  split; [intros; eapply map_get_ok; eassumption|].
+  split; [intros; eapply get_attr_ok; eassumption|].
+  intros n d ch E k b c Eb Hk Hb. eapply build_ctx1_ok; [eapply Hdefs, E|exact Eb|exact Hk|exact Hb].
+Qed.
+
+(* ---------- the guard is necessary: body.mark_safe() trusts the compiler ---------- *)
+
+Definition new_state_with_global (c g : ctx) : state :=
+  {| stack := []; loops := []; setvars := []; caps := []; blocks := []; cur_block := None;
+     parent := None; context := c; global := Some g; capture_block := None; block_buffer := [] |}.
+Definition s_p : str := [112]%N.
+Definition s_c : str := [99]%N.
+Definition poison0 : str := [60;98;62;38;34;39]%N.     (* the six characters  < b > & quote apostrophe *)
+Definition bad_chunk : list instr := [LoadName s_p; BuildMap 0; RenderBodyComponent s_c; WriteTop].
+Definition bad_tpl : template :=
+  {| t_name := s_p; t_chunk := bad_chunk; t_root_chunk := bad_chunk; t_lineage := []; t_autoescape := true |}.
+Definition bad_comps : list (str * (comp_def * list instr)) :=
+  [(s_c, ({| cd_params := []; cd_rest := None |}, [WritePath [n_body]]))].
+
+(* a 4-instruction program no compiler emits: the body operand comes straight from the context *)
+Theorem body_mint_needs_capture :
+  tpl_ok ok_html bad_tpl = true /\ ctx_ok ok_html [(s_p, VStr poison0 false)] = true /\
+  render_to str wr_str (world1 false fp_placeholder [(s_p, bad_tpl)] bad_comps) 50 bad_tpl None
+            [(s_p, VStr poison0 false)] [] []
+  = RDone (new_state_with_global [(s_p, VStr poison0 false)] []) (SinkTop poison0) /\
+  clean ok_html poison0 = false /\
+  (* the guarded world refuses it *)
+  render_to str wr_str (guard_bodies ok_html (world1 false fp_placeholder [(s_p, bad_tpl)] bad_comps)) 50 bad_tpl None
+            [(s_p, VStr poison0 false)] [] [] = RFail ErrRender.
+Proof. vm_compute. repeat split; reflexivity. Qed.
